@@ -113,3 +113,37 @@ func VerifRepos(s Store) ([]string, error) {
 	}
 	return nil, fmt.Errorf("unknown store type %T", s)
 }
+
+// VerifAgeRepo sets the modification time of every blob of a repository (including generated referrers responses).
+func VerifAgeRepo(s Store, repoStr string, t time.Time) (int, error) {
+	repo, err := s.RepoGet(context.Background(), repoStr)
+	if err != nil {
+		return 0, err
+	}
+	defer repo.Done()
+	n := 0
+	switch r := verifUnwrapRepo(repo).(type) {
+	case *dirRepo:
+		dl, err := r.blobList(false)
+		if err != nil {
+			return 0, err
+		}
+		for _, d := range dl {
+			if err := os.Chtimes(filepath.Join(r.path, blobsDir, d.Algorithm().String(), d.Encoded()), t, t); err == nil {
+				n++
+			}
+		}
+		return n, nil
+	case *memRepo:
+		r.mu.Lock()
+		defer r.mu.Unlock()
+		for _, b := range r.blobs {
+			if b != nil {
+				b.m.mod = t
+				n++
+			}
+		}
+		return n, nil
+	}
+	return 0, fmt.Errorf("unknown repo type %T", repo)
+}
